@@ -36,6 +36,12 @@ else:
     T9 = 1e-9 * max(1.0, r.get("coord_conditioning", 1.0))   # conditioning-aware tolerance (see props/C01.py)
     print("interior nodes:", r["n_interior"], " max |u - u_lin| =", r["err_u_interior"], " scale", r["scale_u"])
     bad = not (r["err_u_interior"] <= T9 * r["scale_u"])
+    if "err_u_all" in r:
+        print("all nodes (prescribed ones included): max |u - u_lin| =", r["err_u_all"], " free nodes:", r["n_interior"])
+        bad = bad or not (r["err_u_all"] <= T9 * r["scale_u"])
+    if "first_solve_err" in (r.get("pre") or {}):
+        print("solve before the in-place moves: error", r["pre"]["first_solve_err"])
+        bad = bad or r["pre"]["first_solve_err"] > T9
     if "energy" in r:
         print("u'Ku of the linear field", r["energy"], "exact thickness*measure*density", r["energy_exact"], " residual at interior dofs / scale", r["residual_interior"] / r["residual_scale"])
         bad = bad or abs(r["energy"] - r["energy_exact"]) > T9 * abs(r["energy_exact"]) or r["residual_interior"] > T9 * r["residual_scale"]
@@ -178,6 +184,12 @@ def gen_cases(ctx, E):
                 if not any(m[0] == "mirror" for m in c["moves"]) and rng.random() < 0.5:
                     c["moves"].insert(rng.randrange(len(c["moves"]) + 1), ["mirror", unit(dim)])
                 c["queries"] = True
+                # half of the moved cases: the simulation exists, carries a Dirichlet condition and has been
+                # solved BEFORE the moves; afterwards Bc_Init + callables of (x, y, z) on the SAME simulation
+                c["sim_first"] = rng.random() < 0.5
+                if c["sim_first"]:
+                    c["queries"] = False      # (keeps the quick tier at its previous duration)
+            c["bc_mode"] = rng.choice(["arrays", "perm-arrays", "perm-callables", "split", "callables"])
             if dim == 1:
                 cases.append(dict(c, phys="thermal", params={"k": rng.uniform(0.5, 5), "c": 1.0}))
                 continue
@@ -191,12 +203,13 @@ def gen_cases(ctx, E):
                 cases[-1]["b"] = [rng.uniform(3, 4) for _ in range(dim)]
                 cases[-1]["moves"] = [m for m in cases[-1].get("moves", []) if m[0] == "rotate"][:1]
                 cases[-1]["moves"] = []
+                cases[-1]["sim_first"] = False
             if rep == 0 and (not quick or E[et]["order"] <= 2):
                 cases.append(dict(c, phys="thermal", params={"k": rng.uniform(0.5, 5), "c": 1.0, "thickness": 0.8}, field_seed=rng.randrange(10**6)))
         A, b = affine(2)
         lw, par = law(2)
         cases.append({"kind": "mixed", "elem": "QUAD4+TRI3", "nx": 4, "ny": 3, "L": 2.0, "H": 1.0, "A": A, "b": b, "perm_seed": rng.randrange(10**6),
-                      "field_seed": rng.randrange(10**6), "phys": "elastic", "law": lw, "params": par})
+                      "field_seed": rng.randrange(10**6), "phys": "elastic", "law": lw, "params": par, "bc_mode": rng.choice(["perm-arrays", "perm-callables", "split"])})
     # mixed-group meshes x model options: thermal with thickness != 1 (elastic above has a random thickness)
     for _ in range(1 if quick else 3):
         A, b = affine(2)
@@ -220,6 +233,18 @@ def gen_cases(ctx, E):
                 cases.append({"kind": "grid", "elem": et, "xs": cuts(nx, 2.0), "ys": cuts(ny, 1.0) if ny else None, "zs": None,
                               "embed": rot() if emb else None, "scale": sc, "phys": "thermal", "field_seed": rng.randrange(10**6),
                               "params": {"k": rng.uniform(0.5, 5), "c": 1.0, "thickness": round(rng.uniform(0.3, 0.8), 3)}})
+    # degenerate but legal patches: a single element / a single layer (EVERY node prescribed: no free dof) and
+    # exactly one free node; elastic and thermal, components in permuted order
+    iso = {"E": 210.0, "v": 0.3, "planeStress": True, "thickness": 0.6}
+    for et, xs, ys, zs in (("QUAD4", [0, 1.3], [0, 0.8], None), ("TRI3", [0, 1.3], [0, 0.8], None), ("QUAD4", [0, 0.7, 1.9], [0, 0.9], None),
+                           ("QUAD4", [0, 0.7, 1.9], [0, 0.4, 1.0], None), ("TRI6", [0, 1.3], [0, 0.8], None), ("HEXA8", [0, 1.3], [0, 0.8], [0, 0.5]),
+                           ("HEXA8", [0, 0.6, 1.3], [0, 0.3, 0.8], [0, 0.2, 0.5]), ("SEG2", [0, 1.3], None, None), ("SEG3", [0, 1.3], None, None)):
+        g = {"kind": "grid", "elem": et, "xs": xs, "ys": ys, "zs": zs, "embed": None, "scale": None, "degenerate": True}
+        cases.append(dict(g, phys="thermal", field_seed=rng.randrange(10**6), bc_mode=rng.choice(["arrays", "callables"]),
+                          params={"k": rng.uniform(0.5, 5), "c": 1.0, "thickness": 0.7}))
+        if ys is not None:
+            cases.append(dict(g, phys="elastic", law="isotropic", params=iso, field_seed=rng.randrange(10**6),
+                              bc_mode=rng.choice(["arrays", "perm-arrays", "perm-callables", "split"])))
     # index arithmetic of the assembly: more than 46341 dofs (46341^2 > 2^31), assembled operator examined
     # without a solve (residual of the linear field at interior dofs, energy)
     A, b = affine(2)
@@ -317,14 +342,17 @@ def run(ctx):
         rcg, outg, errg = ctx.impl_python(os.path.join(common.VERIF, "corr", "impl_gauss.py"), timeout=300)
         if rcg != 0:
             rule_res["dump_error"] = errg[-1500:]
+            rule_ready.set()
             return
         open(os.path.join(ctx.build, "Gen_Gauss.v"), "w").write(T_gauss.emit_coq(json.loads(outg)))
         ctx.copy_props("C01/C01_rule.v", "C01/C01_rule_report.v")
         g = ctx.coq(["Gen_Gauss.v"], timeout=300, count=False)
         if not g.ok:
             rule_res["dump_error"] = g.log[-1500:]
+            rule_ready.set()
             return
         rule_res["rule"] = ctx.coq(["C01_rule.v"], timeout=600)
+        rule_ready.set()
         if rule_res["rule"].ok:
             geo = ["SEG2", "TRI3", "QUAD4", "TETRA4"] + (["PRISM6", "HEXA8"] if ctx.tier == "thorough" else [])
             geo = [n for n in geo if n in E]
@@ -350,15 +378,6 @@ def run(ctx):
             ctx.coq(["Gen_BridgePlan.v"], timeout=60, count=False)
             rule_res["bridge"] = ctx.coq(["C01_rule_bridge.v"], timeout=1800)
             rule_res["bridge_types"] = br
-        if rule_res["rule"].ok:
-            try:
-                from translator import hermite as T_herm
-                open(os.path.join(ctx.build, "Gen_Hermite.v"), "w").write(T_herm.emit_coq(T_herm.read_hermite(ctx.repo, E)))
-                ctx.copy_props("C01/C01_hermite.v")
-                gh = ctx.coq(["Gen_Hermite.v"], timeout=300, count=False)
-                rule_res["hermite"] = ctx.coq(["C01_hermite.v"], timeout=600) if gh.ok else gh
-            except (TranslateError, SyntaxError, OSError, KeyError) as ex:
-                rule_res["hermite_error"] = str(ex)
         if rule_res["rule"].ok and ctx.tier == "thorough":
             rule_res["report"] = ctx.coq(["C01_rule_report.v"], timeout=900, count=False)
             if rule_res["report"].ok:
@@ -367,8 +386,35 @@ def run(ctx):
         elif not rule_res["rule"].ok:
             rule_res["diag"] = ctx.coq_eval("C01_rule_diag.v", open(os.path.join(ctx.build, "C01_rule.v")).read().split("Lemma all_dN_rule_exact")[0]
                                             + "\nEval vm_compute in map (fun e => (ename e, dN_rule_exact e)) all_elems.\n", timeout=600)[1]
+    rule_ready = threading.Event()
+
+    def chain_hermite():
+        # needs C01_rule.vo (polynomial expansion); started once the algebra files are compiled (<= 3 processes)
+        rule_ready.wait(timeout=1200)
+        if "rule" in rule_res and rule_res["rule"].ok:
+            try:
+                from translator import hermite as T_herm
+                open(os.path.join(ctx.build, "Gen_Hermite.v"), "w").write(T_herm.emit_coq(T_herm.read_hermite(ctx.repo, E)))
+                ctx.copy_props("C01/C01_hermite.v")
+                gh = ctx.coq(["Gen_Hermite.v"], timeout=300, count=False)
+                rule_res["hermite"] = ctx.coq(["C01_hermite.v"], timeout=600) if gh.ok else gh
+            except (TranslateError, SyntaxError, OSError, KeyError) as ex:
+                rule_res["hermite_error"] = str(ex)
+    th_herm = threading.Thread(target=chain_hermite)
     th_rule = threading.Thread(target=chain_rule)
     th_rule.start()
+    cases = gen_cases(ctx, E)
+    # two harness processes: the large cases start NOW (alongside the Coq compilations), the others after them
+    order = sorted(range(len(cases)), key=lambda i: (1 if cases[i].get("large") else 0))
+    half_a = [i for i in order if not cases[i].get("large")]
+    half_b = [i for i in order if i not in set(half_a)]
+    outs = {}
+
+    def run_half(tag, idx):
+        outs[tag] = ctx.impl_python(os.path.join(common.VERIF, "corr", "C01_impl.py"), input=json.dumps({"cases": [cases[i] for i in idx]}), timeout=2400)
+        ctx.log("harness process %s done (%d cases)" % (tag, len(idx)))
+    tb = threading.Thread(target=run_half, args=("b", half_b))
+    tb.start()
     r1 = ctx.coq(["C01_tables.v"], timeout=300)
     r2 = ctx.coq(["C01_patch.v"], timeout=300)
     if not r1.ok:
@@ -381,17 +427,8 @@ def run(ctx):
     if not r2.ok:
         ctx.violation("proof-broken:C01_patch.v", "C01_patch.v no longer checks", {"obligation": "C01_patch.v", "log": r2.log[-3000:]}, found_input=False)
     # ---------------- correspondence ----------------
-    cases = gen_cases(ctx, E)
-    # two harness processes side by side (the large cases in the second one)
-    order = sorted(range(len(cases)), key=lambda i: (1 if cases[i].get("large") else 0))
-    half_a = [i for k, i in enumerate(order) if not cases[i].get("large") and k % 4 != 3]
-    half_b = [i for i in order if i not in set(half_a)]
-    outs = {}
-
-    def run_half(tag, idx):
-        outs[tag] = ctx.impl_python(os.path.join(common.VERIF, "corr", "C01_impl.py"), input=json.dumps({"cases": [cases[i] for i in idx]}), timeout=2400)
-    tb = threading.Thread(target=run_half, args=("b", half_b))
-    tb.start()
+    ctx.log("algebra files done; starting the second harness process")
+    th_herm.start()
     run_half("a", half_a)
     tb.join()
     results = [None] * len(cases)
@@ -408,7 +445,9 @@ def run(ctx):
     for c, r in zip(cases, results):
         n = c["elem"]
         kind = c["kind"]
-        if kind == "grid":
+        if kind == "grid" and c.get("degenerate"):
+            c = dict(c, law="degenerate:%dx%dx%d" % (len(c["xs"]) - 1, len(c["ys"] or [0]) - 1 if c["ys"] else 0, len(c["zs"] or [0]) - 1 if c["zs"] else 0))
+        elif kind == "grid":
             c = dict(c, law="%s%s" % ("embedded" if c.get("embed") else "flat", "" if c.get("scale") is None else ":x%g" % c["scale"]))
         tag = "%s:%s:%s" % (kind, c.get("phys", "beam"), n) + (":dim%d:%s:%s" % (c["beamDim"], "timoshenko" if c["timo"] else "euler-bernoulli", c["orient"]) if kind == "beam" else ":" + c.get("law", ""))
         dist[tag.split(":")[0] + ":" + tag.split(":")[1]] = dist.get(tag.split(":")[0] + ":" + tag.split(":")[1], 0) + 1
@@ -429,7 +468,7 @@ def run(ctx):
             ctx.obligation("large mesh reaches the intended size (%s)" % tag, nunk > need, "%d unknowns" % nunk)
             if nunk <= need:
                 ctx.violation("large-mesh-size:" + tag, "generated large mesh has only %d unknowns (> %d intended): the size part of the quantifier is not exercised" % (nunk, need), {"case": c}, found_input=False)
-        ctx.note_case(tag if r.get("n_interior", 0) > 0 else None)
+        ctx.note_case(tag if (r.get("n_interior", 0) > 0 or c.get("degenerate")) else None)
         if kind == "beam":
             worst = max(r["err_rel"].values())
             wpost = max(list(r["post"].values()) + [0.0])
@@ -441,7 +480,11 @@ def run(ctx):
                     tag, {k: "%.2e" % v for k, v in r["err"].items()}, r["scale"], {k: "%.2e" % v for k, v in r["post"].items() if v > TOL}), rep, True)
             continue
         checks = [("interior nodes", r["err_u_interior"] / r["scale_u"])]
+        if "err_u_all" in r:
+            checks.append(("all nodes (prescribed ones included)", r["err_u_all"] / r["scale_u"]))
         pre = r.get("pre") or {}
+        if "first_solve_err" in pre:
+            checks.append(("solve before the in-place moves", pre["first_solve_err"]))
         size = 1.0      # group_spread is relative to the coordinate magnitude
         for mvname, sp in pre.get("moves_log", []):
             okg = sp <= 1e-12 * size
@@ -489,6 +532,8 @@ def run(ctx):
             ctx.violation("patch:" + tag, "%s (%d nodes, %d interior): linear field not reproduced — %s (relative, tolerance 1e-9)" % (
                 tag, r["Nn"], r["n_interior"], "; ".join("%s %.3e" % x for x in bad) + " [tolerance 1e-9 x coordinate conditioning %.1f]" % max(1.0, r.get("coord_conditioning", 1.0))), rep, True)
     th_rule.join()
+    th_herm.join()
+    ctx.log("rule / hermite chains done")
     if "dump_error" in rule_res:
         ctx.obligation("C01_rule.v inputs", False, rule_res["dump_error"])
         ctx.violation("rule-dump", "cannot obtain / compile the quadrature tables needed by C01_rule.v", {"log": rule_res["dump_error"]}, found_input=False)
